@@ -24,7 +24,8 @@ IsThrow(r) == Len(r) >= 6 /\ SubSeq(r, 1, 6) = "throw:"
 
 NoCall == [id |-> 0, op |-> "", n |-> 0, sz |-> 0, al |-> 0, h |-> 0]
 FreshState ==
-  [comp |-> [name |-> "", fb |-> FALSE, trk |-> FALSE, mixed |-> FALSE, stk |-> FALSE, deep |-> FALSE, composable |-> FALSE],
+  [comp |-> [name |-> "", fb |-> FALSE, trk |-> FALSE, mixed |-> FALSE, stk |-> FALSE, deep |-> FALSE, composable |-> FALSE,
+             mxn |-> 0, mxa |-> 0, mxal |-> 0],
    ups |-> <<>>,       \* upstream blocks taken ("ua") / returned ("uf") since the composition exists: [k, sz]
    grs |-> <<>>,       \* growth / shrinking callbacks of a deep tracker, same shape
    call |-> NoCall,
@@ -43,7 +44,13 @@ TrkAllocs(ts) == {i \in 1..Len(ts) : ts[i].op \in {"na", "aa"}}
 TrkDeallocs(ts) == {i \in 1..Len(ts) : ts[i].op \in {"nd", "ad"}}
 Both(c, r, i) == Chk(c, "C09", r, i) \cup (IF st.comp.fb THEN Chk(c, "C08", r, i) ELSE {})
 
-OnComp(e) == Result([st EXCEPT !.comp = e, !.ups = <<>>, !.grs = <<>>], Chk(e.ok, "X", "UnknownComposition", <<e.name>>))
+\* storage classes and the tracker adapter forward the size queries unchanged: the full leaf reports
+\* max_node_size 2^20, max_array_size 2^22, max_alignment 4096
+ForwardsQueries == {"leaf", "direct", "ref", "anyref", "ts", "ts_ref", "tracked", "ref_aligned", "aligned", "aligned_tracked"}
+OnComp(e) == Result([st EXCEPT !.comp = e, !.ups = <<>>, !.grs = <<>>],
+                    Chk(e.ok, "X", "UnknownComposition", <<e.name>>)
+                    \cup Chk(~(e.ok /\ e.name \in ForwardsQueries) \/ (e.mxn = 1048576 /\ e.mxa = 4194304 /\ e.mxal = 4096),
+                             "C09", "SizeQueriesForwarded", <<e.name, e.mxn, e.mxa, e.mxal>>))
 OnCall(e) == Result([st EXCEPT !.call = e, !.leafs = <<>>, !.trks = <<>>],
                     Chk(st.call.id = 0, "X", "NestedCall", <<e.id>>))
 
